@@ -129,18 +129,18 @@ def run(ctx):
         def site(name):
             return [b for b, t in calls.items() if t['callee'].endswith("MutableTcpPacket::<'a>::" + name)]
         sa = site('set_acknowledgement')
-        ok = len(sa) == 1
+        ok = tcp.n_sites(sa) == 1
         v = peel(tcp.argv(sa[0], 1)) if ok else None
         ok = ok and is_modsum(tcp.argv(sa[0], 1), [req('get_sequence')], 1)
         rep.check(r2, ok, 'synack:ack', 'acknowledgement <- %s' % (short(v) if v else None), tcp.loc(sa[0]) if sa else tcp.loc(h))
         ss = site('set_sequence')
-        ok = len(ss) == 1
+        ok = tcp.n_sites(ss) == 1
         v = peel(tcp.argv(ss[0], 1)) if ok else None
         ok = ok and is_call(v, r'^synackcookie::generate$') and peel(v[2][0]) == ('param', 3) and \
             Fn.path_of(peel(v[2][1], unwraps=False))[-1:] == [('f', 'synack_key')] and Fn.root_of(peel(v[2][1], unwraps=False)) == ('deref', ('param', 2))
         rep.check(r2, ok, 'synack:seq', 'sequence <- %s' % (short(v) if v else None), tcp.loc(ss[0]) if ss else tcp.loc(h))
         ow = [b for b, t in calls.items() if t['callee'].endswith("MutableTcpPacket::<'a>::owned")]
-        ok = len(ow) == 1
+        ok = tcp.n_sites(ow) == 1
         v = peel(tcp.argv(ow[0], 0), unwraps=False) if ok else None
         segs_ = buf_segments_at(tcp, ow[0], 0) if ok else None
         ok = ok and segs_ is not None and header_only(segs_, r"TcpPacket::<'a>::minimum_packet_size$")
